@@ -5,9 +5,11 @@ import GoImap.Lemmas.CmdGrammarSearchCrit
 namespace GoImap.CmdLemmas
 open GoImap.CmdGrammar GoImap.CmdSpec
 
-/-- a non-empty parenthesised list of good keys is read as the composition of their effects -/
-theorem readsAs_group (F : Nat) (items : List KI) (hne : items ≠ []) (hg : ∀ a ∈ items, Good F a) :
-    ReadsAs (F + 1) (wList (items.map (·.1))) (items.foldl (fun c a => a.2 c) Crit.empty) := by
+/-- a non-empty parenthesised list of good keys is read as the composition of their effects (the list
+    may be opened: `ld + 1 < maxListDepth`) -/
+theorem readsAs_group (F ld kd : Nat) (items : List KI) (hne : items ≠ []) (hg : ∀ a ∈ items, Good F (ld + 1) kd a)
+    (hld : ld + 1 < maxListDepth) :
+    ReadsAs (F + 1) ld kd (wList (items.map (·.1))) (items.foldl (fun c a => a.2 c) Crit.empty) := by
   intro tail
   cases items with
   | nil => exact absurd rfl hne
@@ -20,28 +22,30 @@ theorem readsAs_group (F : Nat) (items : List KI) (hne : items ≠ []) (hg : ∀
       | nil => simpa [joinSp] using (hg a (by simp)).notClose _
       | cons b as => simpa [joinSp, List.append_assoc] using (hg a (by simp)).notClose _
     have hlen : as.length + 1 ≤ (joinSp ((a :: as).map (·.1)) ++ (.b 41 :: tail)).length := by
-      have := joinSp_length_ge (fun x : KI => x.1) (Good F) (fun x hx => hx.nonEmpty) (a :: as) hg
+      have := joinSp_length_ge (fun x : KI => x.1) (Good F (ld + 1) kd) (fun x hx => hx.nonEmpty) (a :: as) hg
       simp only [List.length_append, List.length_cons] at this ⊢
       omega
-    have hloop := listLoop_join (keyItemSpec F) as a Crit.empty _ tail hg hlen
+    have hloop := listLoop_join (keyItemSpec F (ld + 1) kd) as a Crit.empty _ tail hg hlen
+    have hd : ¬ (ld + 1 ≥ maxListDepth) := by omega
     unfold pSearchKey
     rw [hspan]
     simp only [ne_eq, not_true_eq_false, if_false]
-    simp only [wList, List.append_assoc, List.singleton_append, List.cons_append, List.nil_append, special_b, hnc]
+    simp only [wList, List.append_assoc, List.singleton_append, List.cons_append, List.nil_append, special_b, hnc, hd, if_false]
     exact hloop
 
 theorem orAll_ne_nil (items : List KI) : orAll items ≠ [] := by
   unfold orAll
   cases items <;> simp
 
-theorem good_orAll (F : Nat) (items : List KI) (hg : ∀ a ∈ items, Good (F + 1) a) : ∀ a ∈ orAll items, Good (F + 1) a := by
+theorem good_orAll (F ld kd : Nat) (items : List KI) (hg : ∀ a ∈ items, Good (F + 1) ld kd a) :
+    ∀ a ∈ orAll items, Good (F + 1) ld kd a := by
   unfold orAll
   cases items with
   | nil =>
     intro a ha
     simp only [List.isEmpty_nil, if_true, List.mem_singleton] at ha
     subst ha
-    exact good_all F
+    exact good_all F ld kd
   | cons b bs => simpa using hg
 
 theorem paren_wList (l : List Wire) : Paren (wList l) := ⟨joinSp l ++ [.b 41], by simp [wList]⟩
@@ -54,52 +58,58 @@ theorem paren_critWire (c : Crit) : Paren (critWire c) := by
 def Composes (c : Crit) : Prop := (critItems c).foldl (fun acc a => a.2 acc) Crit.empty = canonCrit c
 
 mutual
-  /-- a criteria tree written by the client is read back in canonical form, given a nesting budget of
-      twice its depth -/
-  theorem readsAs_crit : ∀ (c : Crit) (F : Nat), CritOK c → (∀ c', CritOK c' → Composes c') → 2 * depth c ≤ F →
-      ReadsAs F (critWire c) (canonCrit c)
-    | .mk f nots ors, F, hok0, hcomp, hF => by
+  /-- a criteria tree written by the client is read back in canonical form, given a recursion budget of
+      twice its depth, and room for its nesting below the decoder's list-depth limit and the NOT/OR limit -/
+  theorem readsAs_crit : ∀ (c : Crit) (F ld kd : Nat), CritOK c → (∀ c', CritOK c' → Composes c') → 2 * depth c ≤ F →
+      ld + depth c < maxListDepth → kd + depth c ≤ maxSearchKeyDepth →
+      ReadsAs F ld kd (critWire c) (canonCrit c)
+    | .mk f nots ors, F, ld, kd, hok0, hcomp, hF, hld, hkd => by
       have hok := hok0
       unfold CritOK at hok
       obtain ⟨hf, hn, ho⟩ := hok
-      unfold depth at hF
+      unfold depth at hF hld hkd
       obtain ⟨F2, rfl⟩ : ∃ F2, F = F2 + 2 := ⟨F - 2, by omega⟩
-      have hgood : ∀ a ∈ flatItems f ++ notItems nots ++ orItems ors, Good (F2 + 1) a := by
+      have hgood : ∀ a ∈ flatItems f ++ notItems nots ++ orItems ors, Good (F2 + 1) (ld + 1) kd a := by
         intro a ha
         simp only [List.mem_append] at ha
         rcases ha with (ha | ha) | ha
-        · exact good_flatItems F2 f hf a ha
-        · exact good_nots nots F2 hn hcomp (by omega) a ha
-        · exact good_ors ors F2 ho hcomp (by omega) a ha
-      have := readsAs_group (F2 + 1) _ (orAll_ne_nil _) (good_orAll F2 _ hgood)
+        · exact good_flatItems F2 (ld + 1) kd f hf a ha
+        · exact good_nots nots F2 (ld + 1) kd hn hcomp (by omega) (by omega) (by omega) a ha
+        · exact good_ors ors F2 (ld + 1) kd ho hcomp (by omega) (by omega) (by omega) a ha
+      have := readsAs_group (F2 + 1) ld kd _ (orAll_ne_nil _) (good_orAll F2 (ld + 1) kd _ hgood) (by omega)
       have hc := hcomp (.mk f nots ors) hok0
       unfold Composes critItems at hc
       rw [hc] at this
       unfold critWire
       exact this
-  theorem good_nots : ∀ (nots : CritList) (F : Nat), NotsOK nots → (∀ c', CritOK c' → Composes c') → 2 * depthNots nots ≤ F →
-      ∀ a ∈ notItems nots, Good (F + 1) a
-    | .nil, _, _, _, _ => by intro a ha; simp [notItems] at ha
-    | .cons c t, F, hok, hcomp, hF => by
+  theorem good_nots : ∀ (nots : CritList) (F ld kd : Nat), NotsOK nots → (∀ c', CritOK c' → Composes c') → 2 * depthNots nots ≤ F →
+      ld + depthNots nots < maxListDepth → kd + depthNots nots < maxSearchKeyDepth →
+      ∀ a ∈ notItems nots, Good (F + 1) ld kd a
+    | .nil, _, _, _, _, _, _, _, _ => by intro a ha; simp [notItems] at ha
+    | .cons c t, F, ld, kd, hok, hcomp, hF, hld, hkd => by
       unfold NotsOK at hok
-      unfold depthNots at hF
+      unfold depthNots at hF hld hkd
       intro a ha
       unfold notItems at ha
       rcases List.mem_cons.mp ha with rfl | ha
-      · exact good_not F (critWire c) (canonCrit c) (readsAs_crit c F hok.1 hcomp (by omega)) (paren_critWire c)
-      · exact good_nots t F hok.2 hcomp (by omega) a ha
-  theorem good_ors : ∀ (ors : OrList) (F : Nat), OrsOK ors → (∀ c', CritOK c' → Composes c') → 2 * depthOrs ors ≤ F →
-      ∀ a ∈ orItems ors, Good (F + 1) a
-    | .nil, _, _, _, _ => by intro a ha; simp [orItems] at ha
-    | .cons a b t, F, hok, hcomp, hF => by
+      · exact good_not F ld kd (critWire c) (canonCrit c)
+          (readsAs_crit c F ld (kd + 1) hok.1 hcomp (by omega) (by omega) (by omega)) (paren_critWire c) (by omega)
+      · exact good_nots t F ld kd hok.2 hcomp (by omega) (by omega) (by omega) a ha
+  theorem good_ors : ∀ (ors : OrList) (F ld kd : Nat), OrsOK ors → (∀ c', CritOK c' → Composes c') → 2 * depthOrs ors ≤ F →
+      ld + depthOrs ors < maxListDepth → kd + depthOrs ors < maxSearchKeyDepth →
+      ∀ a ∈ orItems ors, Good (F + 1) ld kd a
+    | .nil, _, _, _, _, _, _, _, _ => by intro a ha; simp [orItems] at ha
+    | .cons a b t, F, ld, kd, hok, hcomp, hF, hld, hkd => by
       unfold OrsOK at hok
-      unfold depthOrs at hF
+      unfold depthOrs at hF hld hkd
       intro x hx
       unfold orItems at hx
       rcases List.mem_cons.mp hx with rfl | hx
-      · exact good_or F (critWire a) (critWire b) (canonCrit a) (canonCrit b)
-          (readsAs_crit a F hok.1 hcomp (by omega)) (readsAs_crit b F hok.2.1 hcomp (by omega)) (paren_critWire a) (paren_critWire b)
-      · exact good_ors t F hok.2.2 hcomp (by omega) x hx
+      · exact good_or F ld kd (critWire a) (critWire b) (canonCrit a) (canonCrit b)
+          (readsAs_crit a F ld (kd + 1) hok.1 hcomp (by omega) (by omega) (by omega))
+          (readsAs_crit b F ld (kd + 1) hok.2.1 hcomp (by omega) (by omega) (by omega))
+          (paren_critWire a) (paren_critWire b) (by omega)
+      · exact good_ors t F ld kd hok.2.2 hcomp (by omega) (by omega) (by omega) x hx
 end
 
 end GoImap.CmdLemmas
